@@ -199,6 +199,126 @@ class Exec:
                 self.run.harness.clear()
 
 
+        elif op[0] == "send_script":
+            # the command-line path: `skepticoin-send <amount> <skepticoin|sashimi> <address>` run as the next process on the saved
+            # wallet file, with the node's networking replaced by a recorder.  Only when no earlier spend is still unconfirmed
+            # (the wallet file does not remember used outputs).
+            import io
+            import os
+            import sys
+            from skepticoin import wallet as W
+            from skepticoin.scripts import send as SEND
+            _, unit, a, rcpt = op
+            if self.pending:
+                return
+            # a NEW process: it knows the wallet file and the chain, not which outputs an earlier process used (those spends are
+            # all confirmed here; outputs that a reorganisation un-spent are spendable again for it)
+            self.used = set()
+            sp = self.spendable()
+            total = sum(sp.values())
+            if unit == "skepticoin":
+                coins = 1 + a % 12
+                value, argv_amount = coins * 100_000_000, coins
+            else:
+                value = max(1, total * (1 + a % 997) // 1000) if a % 5 else total + 1 + a % 1000
+                argv_amount = value
+            affordable = total >= value
+            cs_now = cs
+            sent = []
+
+            class _NM:
+                def broadcast_transaction(self_, t):
+                    sent.append(t)
+
+            class _CM:
+                coinstate = cs_now
+
+            class _LP:
+                network_manager, chain_manager = _NM(), _CM()
+
+            class _Thread:
+                local_peer = _LP()
+
+                def stop(self_):
+                    pass
+
+                def join(self_):
+                    pass
+
+            def _sleep(sec):
+                raise KeyboardInterrupt()
+
+            names = ["check_chain_dir", "read_chain_from_disk", "start_networking_peer_in_background", "wait_for_fresh_chain", "configure_logging_from_args", "sleep", "open_or_init_wallet"]
+            for nme in names:
+                if not hasattr(SEND, nme):
+                    raise env.HarnessError("scripts.send.%s missing" % nme)
+            saved = {nme: getattr(SEND, nme) for nme in names}
+            cwd = os.getcwd()
+            os.chdir(env.fresh_subdir("c14send"))
+            argv, out_, old_stdout = sys.argv, io.StringIO(), sys.stdout
+            err = None
+            try:
+                W.save_wallet(self.wallet)
+                SEND.check_chain_dir = lambda: None
+                SEND.read_chain_from_disk = lambda: cs_now
+                SEND.start_networking_peer_in_background = lambda args, coinstate: _Thread()
+                SEND.wait_for_fresh_chain = lambda *a_, **k_: None
+                SEND.configure_logging_from_args = lambda args: None
+                SEND.sleep = _sleep
+                sys.argv = ["skepticoin-send", str(argv_amount), unit, "SKE" + KEYS[rcpt].pub.hex() + "PTI"]
+                sys.stdout = out_
+                try:
+                    SEND.main()
+                except SystemExit as e:
+                    err = e
+                except Exception as e:
+                    err = e
+                finally:
+                    sys.argv, sys.stdout = argv, old_stdout
+                with open("wallet.json") as fh:
+                    w2 = W.Wallet.load(fh)
+            finally:
+                for nme, v in saved.items():
+                    setattr(SEND, nme, v)
+                os.chdir(cwd)
+            self.flags["send_script_runs"] = self.flags.get("send_script_runs", 0) + 1
+            what = "skepticoin-send %s %s" % (argv_amount, unit)
+            if not affordable:
+                if sent:
+                    self.fail("overspend", "unaffordable-spend-succeeded", "%s: spendable %d < %d but a transaction was broadcast" % (what, total, value))
+                self.wallet = w2
+                return
+            if len(sent) != 1:
+                self.fail("refused", "affordable-spend-refused", "%s: spendable %d >= %d but the script broadcast %d transaction(s) (%r)" % (what, total, value, len(sent), err))
+                self.wallet = w2
+                return
+            p = b.from_sk_tx(sent[0])
+            refs = [(h, i) for (h, i, _s) in p.ins]
+            tin = sum(self.head().utxo[r][0] for r in refs if r in self.head().utxo)
+            if any(r not in sp for r in refs) or len(set(refs)) != len(refs):
+                self.fail("inputs", "input-not-spendable", "%s: the broadcast transaction spends an output that is not a spendable output of this wallet" % what)
+            if not p.outs or p.outs[0] != (value, KEYS[rcpt].pub):
+                self.fail("outputs", "outputs-not-exact", "%s: the recipient is paid %s, the user asked for %d sashimi" % (what, p.outs[0][0] if p.outs else None, value))
+            elif tin - value > 0 and (len(p.outs) != 2 or p.outs[1][0] != tin - value or p.outs[1][1] not in w2.keypairs):
+                self.fail("outputs", "outputs-not-exact", "%s: change %s, expected %d to a key of the wallet" % (what, [v for v, _ in p.outs[1:]], tin - value))
+            elif tin - value == 0 and len(p.outs) != 1:
+                self.fail("outputs", "outputs-not-exact", "%s: a change output although nothing is left over" % what)
+            try:
+                C.validate_non_coinbase_transaction_by_itself(sent[0])
+                C.validate_non_coinbase_transaction_in_coinstate(sent[0], cs.current_chain_hash, cs)
+            except Exception as e:
+                self.fail("invalid", "returned-transaction-invalid", "%s: the broadcast transaction fails the node's validation: %r" % (what, e))
+            self.wallet = w2
+            if any(k_.pub not in {kk.pub for kk in self.wkeys} for k_ in KEYS if k_.pub in w2.keypairs):
+                pass
+            # (not recorded as "used by this wallet": the process that made the spend is gone; it is mined at once, and if a
+            # reorganisation un-spends its inputs later they are legitimately spendable again for the wallet object that follows)
+            self.n_tx += 1
+            name = "w%d" % self.n_tx
+            self.run.world.txs[name] = p
+            self.pending.append(name)
+            if not self.fails:
+                self.step(["confirm", 0, rcpt])
         elif op[0] == "reorg":
             # a competing branch, forking `depth` blocks below the head, overtakes the active chain: outputs created on the
             # abandoned branch vanish, outputs spent there are unspent again -- the wallet must follow the NEW head
@@ -283,6 +403,10 @@ class Machine(RuleBasedStateMachine):
     def block(self, miner):
         self.do(["block", 0, miner])
 
+    @rule(unit=st.sampled_from(["skepticoin", "sashimi", "sashimi"]), a=st.integers(0, 10 ** 6), rcpt=st.integers(0, len(KEYS) - 1))
+    def send_script(self, unit, a, rcpt):
+        self.do(["send_script", unit, a, rcpt])
+
     @rule(depth=st.integers(0, 2), miner=st.integers(0, 7))
     def reorg(self, depth, miner):
         self.do(["reorg", depth, miner])
@@ -296,6 +420,7 @@ class Machine(RuleBasedStateMachine):
         res.count("spend_successes", self.ex.flags["successes"])
         res.count("spend_failures", self.ex.flags["failures"])
         res.count("reorgs", self.ex.flags.get("reorgs", 0))
+        res.count("send_script_runs", self.ex.flags.get("send_script_runs", 0))
         res.count("signing_faults", self.ex.flags.get("signing_faults", 0))
         if self.ex.flags["fail_then_affordable"]:
             res.nontrivial(env.digest(case))
@@ -324,7 +449,7 @@ def run(shard, tier, seed):
     res = Result()
     Machine.res = res
     Machine.found = {}
-    n = 30 if tier == "quick" else 600
+    n = 50 if tier == "quick" else 600
     steps = 12 if tier == "quick" else 25
     run_state_machine_as_test(
         hypothesis.seed(env.subseed(seed, ID, shard["i"]))(Machine),
